@@ -32,6 +32,11 @@ class SimFault(Exception):
     """the exception scripted doers raise"""
 
 
+class Runaway(BaseException):
+    """the run exceeded the cycle cap: every generated program terminates by construction
+    (finite scripts, or a limit), so this only happens when the scheduler under test is broken"""
+
+
 # --------------------------------------------------------------------------
 # clock seam (doing.time / timing.time are module globals)
 # --------------------------------------------------------------------------
@@ -268,6 +273,7 @@ class Run:
         self.doers_snapshots = []  # (where, [ids]) after every cycle / call, for C06
         self.alive_at_end = None
         self.max_cycles = 400
+        self.runaway = False
 
     # -- trace
     def ev(self, *e):
@@ -570,7 +576,7 @@ def build(prog, res=None):
         def recur(s, deeds=None):
             run.cycles += 1
             if run.cycles > run.max_cycles:
-                raise HarnessError("cycle cap exceeded")
+                raise Runaway()
             run.ev("cycle_begin", run.cycles - 1, s.tyme)
             super().recur(deeds=deeds)
             run.ev("cycle_end", run.cycles - 1, s.tyme, run.ids_of(s.doers))
@@ -665,6 +671,11 @@ def execute(prog, res=None, mode="do", vloop_factory=None, noise=None):
             raise
         except _CaseTimeout:
             raise
+        except Runaway as ex:
+            exc = ex
+            run.runaway = True
+            run.result = ("runaway",)
+            run.ev("do_runaway")
         except BaseException as ex:
             exc = ex
             run.result = ("raise", type(ex).__name__, repr(ex)[:120])
@@ -696,3 +707,12 @@ def _j(x):
     if isinstance(x, float):
         return repr(x)
     return x
+
+
+def check_runaway(run, res):
+    """common to all sched checks: a run that exceeds the cycle cap did not terminate"""
+    if run.runaway:
+        res.violate("run-did-not-terminate", "the run was still going after %d cycles although every doer's script is finite "
+                    "or a limit was set (limit %r, tock %r)" % (run.max_cycles, run.prog["limit"], run.prog["T"]))
+        return True
+    return False
